@@ -144,6 +144,31 @@ func runMint(seed uint64, n int, out *Out) {
 				amt := sdk.NewCoins(sdk.NewCoin(params.DefaultBondDenom, sdkmath.NewInt(r.Range(1, 500))))
 				_ = e.App.BankKeeper.SendCoins(e.Ctx, e.Accts[r.Intn(NAcct)], e.Accts[r.Intn(NAcct)], amt)
 			}
+			// export + import of the mint module's own genesis at this block boundary (a restart from the exported state):
+			// the identity on every tree on which C16 holds, so the model has nothing to replay
+			if height > 1 && r.Chance(8) {
+				func() {
+					defer func() {
+						if rec := recover(); rec != nil {
+							out.Fail(MonFail{Property: "C16", Monitor: "import_no_panic", Class: "mint", History: h, Detail: fmt.Sprintf("mint genesis round trip panicked at height %d: %v", height, rec)})
+						}
+					}()
+					gs := mint.ExportGenesis(e.Ctx, k)
+					if verr := gs.Validate(); verr != nil {
+						out.Fail(MonFail{Property: "C16", Monitor: "export_validates", Class: "mint", History: h, Detail: fmt.Sprintf("exported mint genesis at height %d fails its own validation: %v", height, verr)})
+					}
+					before := k.GetMinter(e.Ctx)
+					mint.InitGenesis(e.Ctx, k, *gs)
+					after := k.GetMinter(e.Ctx)
+					if minterLine(before) != minterLine(after) {
+						out.Fail(MonFail{Property: "C16", Monitor: "import_equals", Class: "mint/minter", History: h,
+							Detail: fmt.Sprintf("height %d: minter before export %s, after import %s (params %s)", height, minterLine(before), minterLine(after), opParams(p))})
+						out.Fail(MonFail{Property: "C13", Monitor: "minter_survives_restart", Class: "mint/minter", History: h,
+							Detail: fmt.Sprintf("height %d: minter before export %s, after import %s", height, minterLine(before), minterLine(after))})
+					}
+					out.Count("mint.genesis-roundtrip")
+				}()
+			}
 			supBefore := e.Supply()
 			colBefore := e.Bal(collector)
 			out.Op("B %d %s", height, supBefore.String())
